@@ -300,15 +300,20 @@ impl Harness {
     fn runnable(&self) -> bool {
         (0..=self.k).any(|id| self.task_live(id) && self.woken(id))
     }
+    /// Schedule class of the execution so far: what kind of caller behaviour it needed.
+    /// `woken-only` = every poll was of a task with an un-consumed wake and no pending send was
+    /// dropped (what a plain executor does with one channel operation in flight per task);
+    /// `cancelled-send` = woken-only polls but a pending send was dropped (`select!`, task abort);
+    /// `spurious-poll` = some task was polled without having been woken; `+join-task` = a task had
+    /// two send futures in flight at once and polls both whenever it runs (`join!`).
     fn class(&self) -> &'static str {
-        if self.spurious {
-            "spurious-poll"
-        } else if self.cancel {
-            "woken-only+cancelled-send"
-        } else if self.join2 {
-            "woken-only+join-task"
-        } else {
-            "woken-only"
+        match (self.spurious, self.cancel, self.join2) {
+            (true, _, false) => "spurious-poll",
+            (true, _, true) => "spurious-poll+join-task",
+            (false, true, false) => "cancelled-send",
+            (false, true, true) => "cancelled-send+join-task",
+            (false, false, true) => "woken-only+join-task",
+            (false, false, false) => "woken-only",
         }
     }
     fn flag(&mut self, sig: &str, what: String) {
@@ -611,6 +616,9 @@ impl Harness {
                 self.trace.push("cR".into());
                 self.rx.as_mut().expect("receiver").close();
                 self.model.rx = RxState::Closed;
+                // `close` takes `&mut Receiver`: it is the receiver's own task that calls it, so that
+                // task is running (e.g. a `select!` arm) and goes on to drain the buffer
+                self.wakers[self.k].wake_by_ref();
             }
             Act::DropR => {
                 self.trace.push("dR".into());
@@ -1039,8 +1047,8 @@ fn main() {
     ];
     // (woken-only depth, all-actions depth) per number of sender tasks
     let depth: [(usize, usize); 3] = match args.tier {
-        Tier::Quick => [(10, 7), (10, 6), (9, 5)],
-        Tier::Thorough => [(10, 10), (10, 8), (10, 7)],
+        Tier::Quick => [(10, 9), (10, 7), (9, 6)],
+        Tier::Thorough => [(12, 10), (12, 9), (10, 8)],
         Tier::Miri => [(5, 3), (4, 3), (0, 0)],
     };
     let mut table = serde_json_map();
@@ -1091,7 +1099,7 @@ fn main() {
     fnd.report(&mut rep);
     let miri = args.tier == Tier::Miri;
     rep.require(miri || rep.counter("runs|woken-only") > 10_000, "fewer than 10000 woken-only executions");
-    rep.require(miri || rep.counter("runs|woken-only+cancelled-send") > 10_000, "fewer than 10000 executions with a cancelled send");
+    rep.require(miri || rep.counter("runs|cancelled-send") > 10_000, "fewer than 10000 executions with a cancelled send");
     rep.require(miri || rep.counter("runs|spurious-poll") > 10_000, "fewer than 10000 executions with a spurious poll");
     rep.require(miri || rep.counter("runs|woken-only+join-task") > 1_000, "fewer than 1000 executions with a join-style task");
     rep.require(miri || rep.counter("runs_with_parked_sender") > 10_000, "fewer than 10000 executions in which a sender had to wait for capacity");
